@@ -576,6 +576,10 @@ func (e *Engine) classify(f *ssa.Function, d CtrlDep, depth int) []string {
 		if p, ok := c.Common().Args[0].(*ssa.Parameter); ok {
 			return "len(" + p.Name() + ")", true
 		}
+		if p := load.SpilledParam(c.Common().Args[0]); p != nil {
+			// a parameter that lives in a cell because a closure reads it
+			return "len(" + p.Name() + ")", true
+		}
 		// len of something derived from a fixed-size local: constant
 		return "len(local)", true
 	}
